@@ -39,8 +39,14 @@ def run_case(case):
     mag = 10 ** r.uniform(0, 6)
     sc = 10 ** r.uniform(-3, 3)
     vals = np.array([r.uniform(-mag, mag) for _ in range(int(np.prod(sh)))]).reshape(sh)
-    if r.random() < 0.3:
-        vals = np.round(vals)  # exact ties
+    u = r.random()
+    if u < 0.15:
+        vals = np.round(vals)  # exact ties (small magnitudes only)
+    elif u < 0.4:
+        # exact ties *at the maximum* of a choice set (a choice without effect, a constant array): two levels only
+        lv = [r.uniform(-mag, mag), r.uniform(-mag, mag)]
+        vals = np.array([r.choice(lv + [max(lv)]) for _ in range(int(np.prod(sh)))]).reshape(sh)
+    out["hist"]["ties_at_max"] = int(0.15 <= u < 0.4)
     axes_opts = [None] + [tuple(c) for k in range(1, nd) for c in __import__("itertools").combinations(range(1, nd), k)]
     axes = r.choice(axes_opts)
     n = sh[0]
